@@ -1045,7 +1045,8 @@ class Engine:
 
     def spec_inv(self, st, sp, env=None):
         from .specev import SpecEval
-        ev = SpecEval(self, st, self.old, env or {})
+        full = dict(st.hidden); full.update(env or {})
+        ev = SpecEval(self, st, self.old, full)
         return [(c, ev.bool(c.ast)) for c in sp["inv"]]
 
     def st_While(self, n, st):
